@@ -157,7 +157,7 @@ def base_coverage(runs, cov, cases, nontrivial, rule, validated):
 
 def check_C01(tier, seed, replay):
     res = Result()
-    runs, cov = machine_runs("C01", ["ops", "term", "rand"], tier, seed, replay,
+    runs, cov = machine_runs("C01", ["ops", "term", "rand", "big"], tier, seed, replay,
                              require=("Lit", "Range", "Eoi", "AnyChar", "CallChar", "SeqFail", "AltFail", "OptFail",
                                       "CloIter", "CloStop", "NegOk", "NegFail", "PosOk", "PosFail", "RuleEnter"))
     cases = [c for r in runs for c in r.cases]
@@ -264,7 +264,7 @@ def monitor(res, prop, kind, cases, tier, formula, what):
 # ---------------------------------------------------------------------------------------------- C02
 def check_C02(tier, seed, replay):
     res, runs, cases = generic(
-        "C02", ["fields", "ws", "rand", "names"], tier, seed, replay, [lambda p, c: None if c.crashed else props.p_tree(p, c)],
+        "C02", ["fields", "ws", "rand", "names", "big"], tier, seed, replay, [lambda p, c: None if c.crashed else props.p_tree(p, c)],
         "field-plumbing shapes (every depth-1 tree over field atoms, sampled deeper ones, hand-written shapes, "
         "override forms) x all inputs up to the bound; non-trivial = accepted input whose tree holds a match",
         lambda c: c.exp["ok"] and c.inp != [],
